@@ -53,8 +53,7 @@ class Ctx:
         self.exhaustive = None
         self.rule = ""
         self.level = "proof"
-        kf = json.loads((VERIF / "known_findings.json").read_text())
-        self.known = [e for e in kf["findings"] if e["property"] == prop]
+        self.known = [e for e in load_findings() if e["property"] == prop]
 
     @property
     def quick(self):
@@ -115,7 +114,7 @@ class Ctx:
             "samples": self.samples or [{"note": "no sample recorded"}],
             "obligations": n_ob,
             "discharged": n_ok,
-            "checker_cmd": "cd /verif/lean && lake build CohdlVerif cohdl_model && lake env lean CohdlVerif/Audit.lean   (kernel re-check of every Props theorem + #print axioms audit), then the correspondence run of this file's property against /repo",
+            "checker_cmd": "cd /verif/lean && lake build CohdlVerif model_cXX && lake env lean CohdlVerif/Audit.lean   (kernel re-check of every Props theorem + #print axioms audit), then the correspondence run of this file's property against /repo",
             "trusted_base": TRUSTED_BASE,
             "obligation_list": self.obligations,
             "input_distribution": dict(self.dist),
@@ -139,6 +138,16 @@ class Ctx:
         out.mkdir(exist_ok=True)
         (out / f"{self.prop}.json").write_text(json.dumps(ev, indent=1, default=str))
         return 1 if self.violations else 0
+
+
+def load_findings():
+    """known_findings.json plus per-property files findings.d/*.json (same entry format)"""
+    out = list(json.loads((VERIF / "known_findings.json").read_text())["findings"])
+    d = VERIF / "findings.d"
+    if d.is_dir():
+        for p in sorted(d.glob("*.json")):
+            out.extend(json.loads(p.read_text())["findings"])
+    return out
 
 
 # ---------------------------------------------------------------------------------------------------
@@ -184,7 +193,7 @@ def fork_map(func, items, procs=None, chunk=1, fresh=True):
     if not items:
         return []
     import_cohdl()
-    procs = procs or min(16, os.cpu_count() or 4)
+    procs = procs or int(os.environ.get("COHDL_VERIF_PROCS", "0") or 0) or min(16, os.cpu_count() or 4)
     ctx = mp.get_context("fork")
     with ctx.Pool(processes=procs, maxtasksperchild=1 if fresh else None) as pool:
         return pool.map(_run_task, [(func, it) for it in items], chunksize=chunk)
